@@ -1,6 +1,6 @@
 (* C11 — per-fold score calibration.  Statements only; proofs in Proofs/CalibrateP.v
    (and Proofs/BrewP.v for the per-fold statement). *)
-From Mokaverif Require Import Model.Base Model.Tdc Model.Calibrate Proofs.TdcP Proofs.CalibrateP.
+From Mokaverif Require Import Model.Base Model.Tdc Model.Calibrate Model.Brew Proofs.TdcP Proofs.CalibrateP Proofs.BrewP.
 Open Scope Z_scope.
 
 (* the returned scores are cal_map t d applied to the raw scores, where t is the lowest raw score
@@ -39,6 +39,21 @@ Theorem C11_error : forall scores targets thr labels,
   calibrate scores targets thr = Err ERuntime.
 Proof. exact calibrate_error. Qed.
 Print Assumptions C11_error.
+
+(* in brew, the scores of the rows of fold f are calibrate applied to fold f's own raw scores
+   (from fold model f) and fold f's own target flags — nothing of another fold enters *)
+Theorem C11_per_fold : forall k thr fold_of targets raw,
+  length targets = length fold_of ->
+  (forall r, r < length fold_of -> nth r fold_of 0 < k)%nat ->
+  forall c out, (1 <= c)%nat ->
+  bw_predict true c k thr fold_of targets raw = Ok out ->
+  forall r, (r < length fold_of)%nat ->
+    let f := nth r fold_of 0%nat in
+    let rows_f := rows_of_fold fold_of f in
+    exists ys, calibrate (fold_raw raw f rows_f) (map (fun r' => nth r' targets false) rows_f) thr = Ok ys /\
+               nth r out 0%Q = nth (index_of r rows_f) ys 0%Q.
+Proof. exact predict_per_fold. Qed.
+Print Assumptions C11_per_fold.
 
 (* non-vacuity *)
 Example C11_example :
